@@ -14,6 +14,7 @@
 -/
 import Ctrmml.Proofs.Seek
 import Ctrmml.Proofs.SeekAlive
+import Ctrmml.Proofs.SeekEnd
 namespace Ctrmml.C12
 open Ctrmml Player PlayerCh
 
@@ -186,5 +187,32 @@ example : (iter (playTick exSong exRoot pdAll) 8 initPS).err = none := C12_examp
 /-- non-vacuity of `C12_seek_eq_play_noerr` past the end: the short track, seek 3 -/
 example : obs (skipTicks ⟨[]⟩ shortRoot pdAll 3 initPS) = obs (iter (playTick ⟨[]⟩ shortRoot pdAll) 4 initPS) :=
   C12_seek_eq_play_noerr ⟨[]⟩ shortRoot pdAll 3 (by decide) (by decide +kernel)
+
+
+/-- **Past the end only `play_time` differs** when no `END` event carries a duration
+(`EndsClean`; true of every track the reader produces): if no error has occurred after `n` single
+ticks, `skip_ticks(n)` and `n+1` `play_tick()`s agree on `obs1` = the whole state while the track
+is enabled and everything except `play_time` once it has ended. -/
+theorem C12_seek_eq_play_noerr_clean (song : Song) (root : List Event) (pd : Int → Bool) (n : Nat) (hn : n ≥ 1)
+    (hclean : EndsClean song root)
+    (hnoerr : (iter (playTick song root pd) n initPS).err = none) :
+    obs1 (skipTicks song root pd n initPS) = obs1 (iter (playTick song root pd) (n + 1) initPS) := by
+  have h := C12_seek_eq_play_noerr song root pd n hn hnoerr
+  have z0 : Z initPS := Z_of_enabled rfl
+  have hpt : playTick song root pd = playTickS song root pd := funext (playTick_eq song root pd)
+  apply obs1_of_obs _ _ (skipTicks_Z song root pd hclean n initPS z0) _ h
+  rw [hpt]
+  exact iter_Z song root pd hclean (n + 1) initPS z0
+
+theorem exSong_endsClean : EndsClean exSong exRoot :=
+  endsClean_of_all exSong exRoot (by decide) (by decide)
+
+/-- non-vacuity past the end of the example track (14 ticks long), seek 20 -/
+example : obs1 (skipTicks exSong exRoot pdAll 20 initPS) = obs1 (iter (playTick exSong exRoot pdAll) 21 initPS) :=
+  C12_seek_eq_play_noerr_clean exSong exRoot pdAll 20 (by decide) exSong_endsClean (by decide +kernel)
+
+example : (iter (playTick exSong exRoot pdAll) 21 initPS).acc.enabled = false ∧
+    (iter (playTick exSong exRoot pdAll) 21 initPS).acc.playTime = 14 ∧
+    (skipTicks exSong exRoot pdAll 20 initPS).acc.playTime = 20 := by decide +kernel
 
 end Ctrmml.C12
